@@ -88,7 +88,7 @@ ASSUMPTIONS = [
 TRUSTED_BASE = ['vf/shims/pkgs/orjson (json.dumps-backed)', 'oracle in this file',
                 'RecordingClient in this file (stands for BatchClient._post/_patch; answers ids like the service)']
 SHARDS = {'quick': 1, 'thorough': 16}
-TIMEOUT = {'quick': 600, 'thorough': 3600}
+TIMEOUT = {'quick': 900, 'thorough': 3600}
 
 
 def FLOORS(tier):
